@@ -26,7 +26,15 @@ impl VocCase {
             let mut v = Vocoder::new(c.nmcp, c.nlpf, c.stage, c.log_gain, c.rate, c.alpha, c.beta, c.volume, c.fperiod);
             let mut out = Vec::with_capacity(c.fperiod * c.frames.len());
             let mut buf = vec![0.0; c.fperiod];
-            for (lf0, sp, lpf) in &c.frames {
+            // half way through, rendering continues on a clone of the vocoder and the original is dropped: a copy carries the whole
+            // state — delay lines, excitation phase, noise generator, previous coefficients (seeded change C13j: a hand-written
+            // `Clone` of the LSP filter that zeroed its delay lines)
+            let fork_at = c.frames.len() / 2;
+            for (k, (lf0, sp, lpf)) in c.frames.iter().enumerate() {
+                if k == fork_at {   // for a single frame: a clone of the fresh vocoder (seeded change C06j)
+                    let v2 = v.clone();
+                    v = v2;
+                }
                 v.synthesize(*lf0, sp, lpf, &mut buf);
                 out.extend_from_slice(&buf);
             }
@@ -481,7 +489,9 @@ pub fn gen_c14(seed: u64, thorough: bool) {
     for i in 0..n {
         let order = if i % 6 == 0 { 2 } else if i % 3 == 1 { rng.range(3, 8) } else { rng.range(3, 40) };
         let nmcp = order + 1; // "order 2" = three coefficients? the no-op case is len <= 2
-        let nmcp = if i % 6 == 0 { 2 } else { nmcp };
+        // length 2 is the no-op case; length exactly 3 is the shortest vector the post-filter acts on (seeded change C14j: an
+        // order-versus-length guard that switched the filter off for three coefficients)
+        let nmcp = if i % 6 == 0 { 2 } else if i % 6 == 3 { 3 } else { nmcp };
         let alpha = if i % 5 == 0 { 0.0 } else { rng.uniform(0.0, 0.6) };
         let beta = if i % 7 == 6 { 0.0 } else { rng.uniform(0.02, 0.5) };
         let rate = 16000usize;
